@@ -543,7 +543,8 @@ fill_yly_ycw(bitint383_t *restrict cand, unsigned int y, const bitint447_t *dow)
 			continue;
 		} else if (!(yd = ycw_get_yday(y, cd.cnt, cd.dow))) {
 			continue;
-		} else if (!(md = yd_to_md(y, yd)).m) {
+		} else if (!(md = yd_to_md(y, yd)).m || md.m > 12U) {
+			/* no such weekday this year */
 			continue;
 		}
 		/* otherwise it's looking good */
@@ -568,8 +569,8 @@ fill_yly_yd(
 		    !((wd_mask >> yd_get_wday(y, yd)) & 0b1U)) {
 			/* weekday is masked out */
 			continue;
-		} else if (!(md = yd_to_md(y, yd)).m) {
-			/* something's wrong again */
+		} else if (!(md = yd_to_md(y, yd)).m || md.m > 12U) {
+			/* no such day this year, e.g. 366 */
 			continue;
 		}
 		/* otherwise it's looking good */
